@@ -12,7 +12,7 @@ BACKENDS = ()
 CHUNK = 4
 KW = dict(step_size=0.125, verbose=False, float_precision='float64', backend='default')
 
-SEEDS = ['flat', 'hier', 'hier_same']
+SEEDS = ['flat', 'hier', 'hier_same', 'hier3', 'flat_et']
 
 
 def build_seed(seed):
@@ -29,6 +29,29 @@ def build_seed(seed):
                             edges=[('a/so/x', 'b/to/u', None, {'weight': 2.0}), ('dd/so/x', 'a/to/u', None, {'weight': 0.5})])
         nodes = {'a': base, 'b': base, 'cc': base, 'dd': ov2}
         edges = {('a/so/x', 'b/to/u'): 2.0, ('dd/so/x', 'a/to/u'): 0.5}
+    elif seed == 'flat_et':
+        # four nodes of one template in a ring; every edge goes through the same EdgeTemplate with its own operator values
+        from pyrates import EdgeTemplate
+        eop = OperatorTemplate('eop', equations=["m = ce*s + be"],
+                               variables={'m': 'output(0.0)', 'ce': 1.0, 'be': 0.0, 's': 'input(0.0)'})
+        et = EdgeTemplate('et', operators=[eop])
+        ring = [('a', 'b', 2.0, 1.5, 0.1), ('b', 'cc', 1.0, 2.5, 0.2), ('cc', 'dd', -0.5, 3.5, 0.3), ('dd', 'a', 0.5, 4.5, 0.4)]
+        c = CircuitTemplate('flat_et', nodes={'a': N, 'b': N, 'cc': N, 'dd': N2},
+                            edges=[(f'{s_}/so/x', f'{t_}/to/u', et, {'weight': w, 'eop/ce': ce, 'eop/be': be})
+                                   for s_, t_, w, ce, be in ring])
+        nodes = {'a': base, 'b': base, 'cc': base, 'dd': ov2}
+        edges = {(f'{s_}/so/x', f'{t_}/to/u'): {'weight': w, 'ce': ce, 'be': be} for s_, t_, w, ce, be in ring}
+    elif seed == 'hier3':
+        # depth 3; the SAME mid-level CircuitTemplate object is used for both branches
+        sub1 = CircuitTemplate('s1', nodes={'a': N, 'b': N}, edges=[('a/so/x', 'b/to/u', None, {'weight': 2.0})])
+        sub2 = CircuitTemplate('s2', nodes={'a': N, 'dd': N2})
+        g = CircuitTemplate('g', circuits={'c1': sub1, 'c2': sub2})
+        c = CircuitTemplate('hier3', circuits={'g1': g, 'g2': g},
+                            edges=[('g2/c2/dd/so/x', 'g1/c1/a/to/u', None, {'weight': 0.5})])
+        nodes = {f'{g_}/{n}': v for g_ in ('g1', 'g2') for n, v in
+                 {'c1/a': base, 'c1/b': base, 'c2/a': base, 'c2/dd': ov2}.items()}
+        edges = {('g1/c1/a/so/x', 'g1/c1/b/to/u'): 2.0, ('g2/c1/a/so/x', 'g2/c1/b/to/u'): 2.0,
+                 ('g2/c2/dd/so/x', 'g1/c1/a/to/u'): 0.5}
     elif seed == 'hier_same':
         # the SAME CircuitTemplate object is used for both sub-circuits
         sub = CircuitTemplate('s', nodes={'a': N, 'dd': N2}, edges=[('a/so/x', 'dd/to/u', None, {'weight': 2.0})])
@@ -43,6 +66,7 @@ def build_seed(seed):
         nodes = {'c1/a': base, 'c1/b': base, 'c2/a': base, 'c2/dd': ov2}
         edges = {('c1/a/so/x', 'c1/b/to/u'): 2.0, ('c2/dd/so/x', 'c1/a/to/u'): 0.5}
     ref = {f'{n}/{k}': v for n, vals in nodes.items() for k, v in vals.items()}
+    edges = {k: (dict(v) if isinstance(v, dict) else {'weight': v}) for k, v in edges.items()}
     return c, ref, list(nodes), edges
 
 
@@ -51,6 +75,16 @@ def alphabet(seed):
         return [['upd', 'c1/a/so/k', 3.0], ['upd', 'c2/dd/so/x', 0.35], ['upd', 'all/a/so/k', 6.0], ['upd', 'c1/all/so/c', 0.7],
                 ['upd_arr', 'all/all/so/k', [1.1, 2.2, 3.3, 4.4]], ['upd', 'c2/a/to/u', 0.8],
                 ['upd_edge', ['c2/dd/so/x', 'c1/a/to/u'], -1.25], ['apply_nv', 'c1/a/so/k', 9.0]]
+    if seed == 'hier3':
+        return [['upd', 'g1/c1/a/so/k', 3.0], ['upd', 'g2/c2/dd/so/x', 0.35], ['upd', 'all/all/a/so/k', 6.0],
+                ['upd', 'g1/all/all/so/c', 0.7], ['upd_arr', 'g2/c2/all/so/x', [0.11, 0.22]], ['upd', 'g2/c1/b/to/u', 0.8],
+                ['upd_arr', 'all/c1/all/so/k', [1.1, 2.2, 3.3, 4.4]],
+                ['upd_edge', ['g2/c2/dd/so/x', 'g1/c1/a/to/u'], -1.25], ['apply_nv', 'g2/c1/a/so/k', 9.0]]
+    if seed == 'flat_et':
+        return [['upd_edge', ['a/so/x', 'b/to/u'], 7.0], ['upd_eop', ['cc/so/x', 'dd/to/u'], 'ce', 3.0],
+                ['upd_eop', ['a/so/x', 'b/to/u'], 'be', -0.6], ['upd_eop', ['dd/so/x', 'a/to/u'], 'ce', 0.25],
+                ['upd', 'a/so/x', 0.35], ['upd', 'all/so/k', 6.0], ['upd_arr', 'all/so/x', [0.11, 0.22, 0.33, 0.44]],
+                ['apply_nv', 'b/so/x', 0.77]]
     if seed == 'flat':
         A, B, D, ALL = 'a', 'b', 'dd', 'all'
         e1 = ('a/so/x', 'b/to/u')
@@ -95,9 +129,10 @@ def cases(tier, seed):
 
 def describe(tier, seed):
     return {'rule': 'templates in which 3 nodes share one NodeTemplate object and a 4th node template shares the '
-                    'OperatorTemplate objects (flat and depth-1); every history of <=2 (thorough 3) operations from '
+                    'OperatorTemplate objects (flat, depth-1, depth-1 with one sub-circuit object used twice, depth-2 with one '
+                    'mid-level circuit object used twice, flat ring whose edges share one EdgeTemplate with per-edge operator values); every history of <=2 (thorough 3) operations from '
                     '{update_var scalar / wildcard / per-node array on constants, initial values and input defaults, '
-                    'update_var(edge_vars), apply(node_values)}; after every history the compiled arguments, initial '
+                    'update_var(edge_vars) on weights and edge-operator values, apply(node_values)}; after every history the compiled arguments, initial '
                     'state and edge weights (vectorize on/off) must equal a plain dict reference model; apply(node_values) '
                     'must not persist; non-trivial = history with >= 1 op',
             'bounds': {'ops': 2 if tier == 'quick' else 3}}
@@ -162,7 +197,10 @@ def run_case(case):
                     res['outcome'] = 'edge_not_present'
                     return res
                 c.update_var(edge_vars=[(op[1][0], op[1][1], {'weight': op[2]})])
-                edges[tuple(op[1])] = op[2]
+                edges[tuple(op[1])]['weight'] = op[2]
+            elif kind == 'upd_eop':
+                c.update_var(edge_vars=[(op[1][0], op[1][1], {f'eop/{op[2]}': op[3]})])
+                edges[tuple(op[1])][op[2]] = op[3]
             elif kind == 'add_matrix':
                 if ('dd/so/x', 'cc/to/u') in edges:
                     res['rejected'] = True
@@ -171,8 +209,8 @@ def run_case(case):
                     return res
                 c.add_edges_from_matrix('so/x', 'to/u', source_nodes=['cc', 'dd'], target_nodes=['cc'],
                                         weight=np.array([[1.25, 0.75]]))
-                edges[('cc/so/x', 'cc/to/u')] = 1.25
-                edges[('dd/so/x', 'cc/to/u')] = 0.75
+                edges[('cc/so/x', 'cc/to/u')] = {'weight': 1.25}
+                edges[('dd/so/x', 'cc/to/u')] = {'weight': 0.75}
                 sig['features'] = sorted(set(sig['features']) | {'edges_added_in_place'})
             elif kind == 'apply_nv':
                 # compile-time override: visible in that compilation only
@@ -204,8 +242,8 @@ def run_case(case):
     y = C.y0().astype(float)
     dy = C.call(y.copy(), t=0)
     for n in nodes:
-        inc = [(s, w) for (s, t), w in edges.items() if t == f'{n}/to/u']
-        u = sum(w * ref[s] for s, w in inc) if inc else ref[f'{n}/to/u']
+        inc = [(s, e) for (s, t), e in edges.items() if t == f'{n}/to/u']
+        u = sum(e['weight'] * (e['ce'] * ref[s] + e['be'] if 'ce' in e else ref[s]) for s, e in inc) if inc else ref[f'{n}/to/u']
         exp = -ref[f'{n}/to/v'] + u
         g = float(dy[C.position(f'{n}/to/v')[0]])
         if abs(g - exp) > 1e-10:
